@@ -42,6 +42,13 @@ mod ps;
 mod trav;
 mod varc;
 mod vars;
+mod glyfm;
+mod varsm;
+mod layoutm;
+mod colrm;
+mod bitmapm;
+mod textm;
+mod aatsm;
 
 /// (group name, runner).  The names are the `harness:<group>` keys of translate/handwritten_cover.json.
 pub const GROUPS: &[(&str, fn(&mut Ctx))] = &[
@@ -77,6 +84,13 @@ pub const GROUPS: &[(&str, fn(&mut Ctx))] = &[
     ("vars", vars::run),
     ("ift", ift::run),
     ("traverse.debug", trav::run),
+    ("glyf.model", glyfm::run),
+    ("vars.model", varsm::run),
+    ("layout.model", layoutm::run),
+    ("colr.model", colrm::run),
+    ("bitmap.model", bitmapm::run),
+    ("text.model", textm::run),
+    ("aats.model", aatsm::run),
 ];
 
 /// plumbing self-test groups (only with `C01_HAND_SELFTEST=1`): a call that never returns and a call
